@@ -144,8 +144,9 @@ public:
     record* entry=pop(data_list);
     if(!entry) //no cached memory available
       return(T());
-    push(free_list,entry);
-    return(*entry);
+    T result=entry->data; //copy the payload out while the record is still exclusively ours:
+    push(free_list,entry); //once on the free list it may be reused by another thread at any time
+    return(result);
   }
 };
   
